@@ -31,7 +31,7 @@ Print Assumptions C21_lexer_blank_input_reads_eof.
 Theorem C21_parse_number_is_rfc_number :
   forall input, parse_number input =
     match strip_number input with
-    | Some r => if delim_or_end r then Some (length input - length r) else None
+    | Some r => if delim_or_end r then Some (length input - length r)%nat else None
     | None => None
     end.
 Proof. exact parse_number_strip. Qed.
@@ -39,7 +39,7 @@ Print Assumptions C21_parse_number_is_rfc_number.
 
 Theorem C21_parse_number_sound :
   forall input n, parse_number input = Some n ->
-    rfc_number (firstn n input) /\ delim_or_end (skipn n input) = true /\ 0 < n <= length input.
+    rfc_number (firstn n input) /\ delim_or_end (skipn n input) = true /\ (0 < n <= length input)%nat.
 Proof. exact parse_number_sound. Qed.
 Print Assumptions C21_parse_number_sound.
 
@@ -56,7 +56,7 @@ Print Assumptions C21_is_rfc_number_iff.
 (* parseString accepts only RFC 8259 strings (escapes, \u with surrogate pairs, UTF-8) *)
 Theorem C21_parse_string_sound :
   forall pos inp s n, parse_string_at pos inp = Ok (s, n) ->
-    rfc_string (firstn n inp) /\ 2 <= n <= length inp /\
+    rfc_string (firstn n inp) /\ (2 <= n <= length inp)%nat /\
     exists body, firstn n inp = c_quote :: body ++ [c_quote].
 Proof. exact parse_string_at_sound. Qed.
 Print Assumptions C21_parse_string_sound.
@@ -76,7 +76,7 @@ Print Assumptions C21_read_step_after_comma.
 
 (* non-vacuity *)
 Definition C21_doc : list byte := ["{"; x22; "a"; x22; ":"; "["; "1"; "e"; "5"; ","; " "; "t"; "r"; "u"; "e"; "]"; "}"]%byte.
-Example C21_ex_reads : snd (read_all C21_doc) = None /\ length (fst (read_all C21_doc)) = 7.
+Example C21_ex_reads : snd (read_all C21_doc) = None /\ length (fst (read_all C21_doc)) = 7%nat.
 Proof. vm_compute. split; reflexivity. Qed.
 Example C21_ex_F2_rejected :
   snd (read_all ["["; "1"; "e"; ","; "2"; "]"]%byte) <> None /\ parse_number ["1"; "e"; ","]%byte = None.
